@@ -554,7 +554,7 @@ PROPS["C01"] = dict(
     theorems=["C01_code_maps_as_modelled", "C01_sharded_map_is_a_map", "C01_or_insert_keeps_the_first",
               "C01_race_has_one_winner_seen_by_all", "C01_presence_is_monotone"],
     engines=[("racediff", [])],
-    thorough_features=[["parking_lot"]],
+    thorough_features=[["parking_lot"], ["no_ahash"]],
     rule="racediff: (a) 2/4/8/16 threads released together on one key whose loader waits until all racers "
          "are inside a loader (forced simultaneous misses), through AssetCache and AnyCache, with and "
          "without reloader: same address, same value token for all, every other loader value dropped at "
